@@ -10,6 +10,7 @@ OccaGen/OpTable.lean.  Clause by clause:
   (2) ... and the printed tokens parse back to the identical tree               C15_roundtrip
   (1'),(2') every well-shaped sequence IS accepted (no hidden rejections)       C15_accepts_and_roundtrips
   (3) operator precedence and associativity are the C/C++ ones                  C15_table_is_cxx, C15_table_complete
+  (3') the parsed tree is precedence-correct (parentheses exactly where needed) C15_parse_image
   (4) the tokenizer's operator spellings are unambiguous                        C15_registered_spellings_unique
   (5) string / character escapes are preserved                                  C15_escape_roundtrip
   (6) adjacent prefix operators are read back as the same two operators         C15_prefix_pair_relex
@@ -47,6 +48,19 @@ theorem C15_accepts_and_roundtrips (ts : List Tok) (hshape : CShape ts = true) (
     ∃ e, parse ts = .ok e ∧ printToks e = ts ∧ parse (printToks e) = .ok e := by
   obtain ⟨e, h1, h2⟩ := parse_accepts ts hshape hlex
   exact ⟨e, h1, h2, by rw [h2]; exact h1⟩
+
+/-- (3') **the parser's image ("ParserImage")**: the tree built from a well-shaped sequence is precedence-correct
+    (`canonB`): every operand binds at least as tightly as its position under its parent operator requires
+    (left operands: tighter, or equal on a left-to-right level; right operands: tighter, or equal on a right-to-left
+    level), so looser sub-expressions occur only inside explicit `paren` nodes, call arguments, subscripts, tuples and
+    the middle operand of `?:`.  With `C15_table_is_cxx` this is the grouping a C/C++ compiler gives the same tokens. -/
+theorem C15_parse_image (ts : List Tok) (e : Expr) (hshape : CShape ts = true) (hlex : Lexed ts)
+    (hparse : parse ts = .ok e) : canonB e = true :=
+  parse_canon ts e hshape hlex hparse
+
+example : canonB (.bin .add (.ident "a") (.bin .mult (.ident "b") (.ident "c"))) = true ∧
+          canonB (.bin .mult (.bin .add (.ident "a") (.ident "b")) (.ident "c")) = false ∧
+          canonB (.bin .mult (.paren (.bin .add (.ident "a") (.ident "b"))) (.ident "c")) = true := by decide
 
 /-- the hypotheses are satisfiable by the adjacency-critical and the nested cases:
     `a - - b * ( int ) - c ? x ++ : y [ i -- ] , f ( p , & q )` -/
